@@ -270,20 +270,23 @@ def oracle_elliptical():
         sizes = sorted(len(g) for g in groups)
         if sizes != [1, 11]:
             return True, 'long-chain-cut', 'a chain of 11 sources 0.1 deg apart (linked pairwise, 1 deg long) plus one bystander: group sizes %s instead of [1, 11]' % sizes
-    for pts in (((-70, 40), (70, 41), (0, 0)), ((-70, 40), (70, 41), (0, 80))):
-        A, B, C = [mk(x, y, 1.0 + k, k) for k, (x, y) in enumerate(pts)]
-        srcs = [A, B, C]
+    # the last two: one source (lowest declination) within reach of three groups that are out of each other's reach; the same
+    # with an unrelated far-away source whose declination lies between them
+    for pts in (((-70, 40), (70, 41), (0, 0)), ((-70, 40), (70, 41), (0, 80)),
+                ((74.8, 13.2), (0, 76), (-74.8, 13.2), (0, 0)), ((74.8, 13.2), (0, 76), (900, 40), (-74.8, 13.2), (0, 0)), ((74.8, 93.2), (0, 4), (-74.8, 93.2), (0, 80), (600, 50))):
+        srcs = [mk(x, y, 1.0 + k, k) for k, (x, y) in enumerate(pts)]
+        n_ = len(srcs)
         at = loader.real('angle_tools')
         lim = 1.0 * math.hypot(60.0, 60.0)
         sep = lambda p, q: at.gcd(p.ra, p.dec, q.ra, q.dec) * 3600
-        adj = {(i, j): sep(srcs[i], srcs[j]) < lim for i in range(3) for j in range(i + 1, 3)}
-        want = sorted(comps_of(3, adj))
-        for order in ([0, 1, 2], [2, 1, 0], [1, 2, 0]):
+        adj = {(i, j): sep(srcs[i], srcs[j]) < lim for i in range(n_) for j in range(i + 1, n_)}
+        want = sorted(comps_of(n_, adj))
+        for order in (list(range(n_)), list(reversed(range(n_))), list(range(1, n_)) + [0]):
             groups = cl.regroup([srcs[k] for k in order], eps=1.0)
             got = sorted(sorted(srcs.index(s) for s in g) for g in groups)
             flat = sorted(x for g in got for x in g)
-            if flat != [0, 1, 2]:
-                return True, 'not-a-partition', 'groups %s' % got
+            if flat != list(range(n_)):
+                return True, 'not-a-partition', 'circular 60 arcsec sources at offsets %s arcsec, eps=1: groups %s do not hold every source exactly once' % (list(pts), got)
             if got != want:
                 unmerged = all(any(set(g) <= set(w) for w in want) for g in got)
                 return True, ('bridge-not-merged' if unmerged else 'partition'), 'circular 60 arcsec sources at offsets %s arcsec, eps=1: groups %s but the chain-connected components are %s' % (list(pts), got, want)
@@ -411,6 +414,25 @@ def oracle(seed=1, trials=60):
                     return True, 'flux-order', 'group numbering %s fluxes %s' % ([s.source for s in fl], [s.peak_flux for s in fl])
             if [(s.ra, s.dec, s.peak_flux, s.a, s.b, s.pa, s.uuid) for s in srcs] != attrs0:
                 return True, 'attribute-changed', 'an attribute other than island/source changed'
+    # link decisions close to the linking length: pairs on a meridian (separation = their declination difference, exactly),
+    # 0.1 % inside / outside a 5 arcsec linking length, spread over the sky - double precision decides these with a margin of 1e8 ulp
+    eps_rad = float(real_np.radians(5.0 / 3600))
+    eps = 2 * math.sin(eps_rad / 2)
+    srcs, want = [], []
+    for k in range(48):
+        ra0, dec0 = 7.0 + 7.3 * k, -62.0 + 2.6 * k
+        inside = k % 2 == 0
+        d = 5.0 / 3600 * (1 - 1e-3 if inside else 1 + 1e-3)
+        for j, dd in enumerate((0.0, d)):
+            s = models.ComponentSource()
+            s.ra, s.dec, s.peak_flux, s.a, s.b, s.pa = ra0, dec0 + dd, 2.0 - j, 30.0, 20.0, 0.0
+            srcs.append(s)
+        want += [[2 * k, 2 * k + 1]] if inside else [[2 * k], [2 * k + 1]]
+    groups = cl.regroup_dbscan(list(srcs), eps=eps)
+    got = sorted(sorted(srcs.index(s_) for s_ in g) for g in groups)
+    if got != sorted(want):
+        wrong = [g for g in got if g not in want] + [w for w in want if w not in got]
+        return True, 'knife-edge-links', '48 meridian pairs 0.1 %% inside / outside a 5 arcsec linking length: %d groups instead of %d; first disagreements %s' % (len(got), len(want), wrong[:4])
     # resize
     s = models.ComponentSource()
     s.a, s.b, s.pa, s.psf_a, s.psf_b, s.psf_pa = 40.0, 30.0, 10.0, 25.0, 20.0, 0.0
@@ -482,13 +504,13 @@ def run(rep):
         rep.stats(st)
         handle(rep, res, 'K-grouping')
     rep.end_kernel()
-    rep.kernel('K-elliptical', functions=[F + ':regroup_vectorized', F + ':regroup'], bounds='n <= 3 (thorough 4) sources at distinct declinations in every order, pair distances FREE symbols (every adjacency pattern), symbolic eps',
+    rep.kernel('K-elliptical', functions=[F + ':regroup_vectorized', F + ':regroup'], bounds='n <= 4 sources at distinct declinations (n <= 3: every order; n = 4: 12 orders, thorough all 24; four sources are the least that let one source bridge three groups), pair distances FREE symbols (every adjacency pattern), symbolic eps',
                stubs=['dist (norm_dist) -> free symbolic pair distances (comparisons fork)', 'catalogue -> real numpy recarray with concrete distinct declinations and equal RA'],
                outside=['norm_dist itself (ellipse radii along the joining line)', 'the far / rafar pre-filters away from the equator (decided: two sources on the equator with symbolic RA, wrap included)'])
     eplans = []
-    for n_ in ((2, 3, 4) if thorough else (2, 3)):
+    for n_ in (2, 3, 4):
         for perm in itertools.permutations(range(n_)):
-            if n_ == 4 and perm[0] > 1:
+            if n_ == 4 and perm[0] > 1 and not thorough:
                 continue
             eplans.append((h_elliptical(cl, n_, perm), dict(wall_s=300)))
             if n_ >= 3:
